@@ -65,6 +65,15 @@ pub struct ProcessPlan {
     pub threads: Vec<ThreadPlan>,
     pub sched: SchedPlan,
     pub fmt: FmtPlan,
+    /// Files created before the calls ("$RUN/..." = inside the run's sandbox): the paths an
+    /// earlier execution of the same plan looked for and did not find (file-probe seam).
+    #[serde(default)]
+    pub plant_files: Vec<String>,
+    /// How the process was started: 0 as `wgsl-sim c18-proc`, 1 through a hard link named
+    /// `build-script-build` in the sandbox with cargo-like trailing arguments, 2 with a long
+    /// argv[0] that does not exist as a path.
+    #[serde(default)]
+    pub argv_kind: u8,
 }
 
 #[derive(Debug, Clone, Serialize, Deserialize, PartialEq, Eq)]
@@ -141,6 +150,9 @@ pub struct WorkerOutput {
     pub fds_delta: i64,
     #[serde(default)]
     pub threads_left_running: u64,
+    /// paths the calls looked for and did not find ("$RUN/..." when inside the sandbox)
+    #[serde(default)]
+    pub probed_missing: Vec<String>,
     pub log: Vec<String>,
 }
 
@@ -182,6 +194,16 @@ fn process_attributes() -> Vec<(String, String)> {
         v.push(("nice value".to_string(), libc::getpriority(libc::PRIO_PROCESS, 0).to_string()));
     }
     v
+}
+
+/// What a planted file contains: something a reader of that kind of file would act on.
+fn planted_content(name: &str) -> &'static str {
+    match name.rsplit('.').next().unwrap_or("") {
+        "wgsl" => "@fragment\nfn planted_by_the_simulator() -> @location(0) vec4<f32> {\n    return vec4<f32>(1.0);\n}\n",
+        "json" => "{\"planted\": true, \"rustfmt\": false, \"derive\": [\"serde\"], \"validate\": false}\n",
+        "rs" => "pub const PLANTED_BY_THE_SIMULATOR: u32 = 1;\n",
+        _ => "# planted by the simulator\nplanted = true\nrustfmt = false\nvalidate = false\nmax_width = 30\nderive = [\"serde\"]\n",
+    }
 }
 
 fn count_dir(path: &str) -> i64 {
@@ -344,6 +366,17 @@ pub fn proc_main() -> i32 {
 
 fn run_process(input: &WorkerInput) -> WorkerOutput {
     let p = &input.process;
+    if let Some(root) = &input.tmp_dir {
+        for path in &p.plant_files {
+            if let Some(rest) = path.strip_prefix("$RUN/") {
+                let full = std::path::Path::new(root).join(rest);
+                if let Some(parent) = full.parent() {
+                    let _ = std::fs::create_dir_all(parent);
+                }
+                let _ = std::fs::write(&full, planted_content(rest));
+            }
+        }
+    }
     seams::set_clock(p.clock_skew_s, p.clock_jump_s, p.clock_jump_after);
     seams::set_cpu_count(p.cpus);
     let env_before: BTreeMap<String, String> = std::env::vars_os()
@@ -367,6 +400,7 @@ fn run_process(input: &WorkerInput) -> WorkerOutput {
     let spawns = Arc::new(AtomicU64::new(0));
     let unreaped = Arc::new(AtomicU64::new(0));
     let helper_threads = Arc::new(AtomicU64::new(0));
+    let probes = Arc::new(Mutex::new(Vec::<String>::new()));
     let return_all = input.return_all_outcomes;
 
     let mut handles = Vec::new();
@@ -382,6 +416,7 @@ fn run_process(input: &WorkerInput) -> WorkerOutput {
         let spawns = spawns.clone();
         let unreaped = unreaped.clone();
         let helper_threads = helper_threads.clone();
+        let probes = probes.clone();
         let handle = std::thread::Builder::new()
             .stack_size(16 << 20)
             .spawn(move || {
@@ -417,11 +452,22 @@ fn run_process(input: &WorkerInput) -> WorkerOutput {
                         let job = &pool[pool_idx];
                         backend.formatter_fault_in_this_call.store(false, Ordering::Relaxed);
                         sched.set_in_call(tid, true);
+                        seams::set_file_probe_recording(true);
                         seams::set_alloc_points_active(true);
                         let r = std::panic::catch_unwind(std::panic::AssertUnwindSafe(|| {
                             corpus::run_job(&sources[pool_idx], job.include_path.as_deref(), job.options)
                         }));
                         seams::set_alloc_points_active(false);
+                        let looked_for = seams::take_file_probes();
+                        seams::set_file_probe_recording(false);
+                        if !looked_for.is_empty() {
+                            let mut all = probes.lock().unwrap();
+                            for path in looked_for {
+                                if all.len() < 64 && !all.contains(&path) {
+                                    all.push(path);
+                                }
+                            }
+                        }
                         sched.set_in_call(tid, false);
                         let result = match r {
                             Ok(_) if backend.formatter_fault_in_this_call.load(Ordering::Relaxed) => JobResult {
@@ -450,6 +496,27 @@ fn run_process(input: &WorkerInput) -> WorkerOutput {
                                 }
                             }
                             Err(payload) => match payload.downcast_ref::<Sentinel>() {
+                                // The call deadlocked against its (well-behaved) formatter. Whether
+                                // that may happen is C19's business; for C18 it is an outcome like
+                                // any other: the same input must give it every time.
+                                Some(Sentinel::Hang(what)) => {
+                                    let outcome = Outcome::Panic {
+                                        message: format!("the call never returns: {what}"),
+                                    };
+                                    let hash = outcome.hash();
+                                    let want = golden[pool_idx];
+                                    let matches = want == 0 || want == hash;
+                                    JobResult {
+                                        tid,
+                                        qidx,
+                                        pool_idx,
+                                        hash,
+                                        class: "hang".into(),
+                                        completed: true,
+                                        matches,
+                                        outcome: (!matches || return_all).then_some(outcome),
+                                    }
+                                }
                                 Some(Sentinel::Crash) => JobResult {
                                     tid,
                                     qidx,
@@ -554,6 +621,16 @@ fn run_process(input: &WorkerInput) -> WorkerOutput {
         hasher.u64(r.hash);
         hasher.str(&r.class);
     }
+    let probed_missing: Vec<String> = {
+        let root = input.tmp_dir.clone().unwrap_or_default();
+        let all = probes.lock().unwrap();
+        all.iter()
+            .map(|p| match p.strip_prefix(&root) {
+                Some(rest) if !root.is_empty() => format!("$RUN{rest}"),
+                _ => p.clone(),
+            })
+            .collect()
+    };
     let abort = if !harness_errors.is_empty() {
         Some(format!("harness: {}", harness_errors.join("; ")))
     } else {
@@ -584,6 +661,7 @@ fn run_process(input: &WorkerInput) -> WorkerOutput {
         process_attributes_changed,
         fds_delta,
         threads_left_running,
+        probed_missing,
         log: report.log,
     }
 }
@@ -681,9 +759,32 @@ pub fn canonical_env() -> Vec<(String, String)> {
 
 fn spawn_worker(scratch: &Scratch, sandbox: &Sandbox, input: &WorkerInput) -> Result<WorkerOutput, String> {
     let exe = std::env::current_exe().map_err(|e| e.to_string())?;
-    let mut cmd = std::process::Command::new(exe);
-    cmd.arg("c18-proc")
-        .env_clear()
+    // How a process is started (program name, path of the executable, arguments) is part of its
+    // environment too.
+    let mut cmd = match input.process.argv_kind {
+        1 => {
+            let dir = sandbox.root.join("bin");
+            let link = dir.join("build-script-build");
+            let linked = std::fs::create_dir_all(&dir).is_ok()
+                && (link.exists() || std::fs::hard_link(&exe, &link).is_ok());
+            let mut cmd = std::process::Command::new(if linked { link } else { exe });
+            cmd.arg("c18-proc").arg("--release").arg("target/debug/build/decoy-0123456789abcdef/out");
+            cmd
+        }
+        2 => {
+            use std::os::unix::process::CommandExt;
+            let mut cmd = std::process::Command::new(exe);
+            cmd.arg0(format!("/nonexistent/{}/build_script_build-fedcba9876543210", "deep/".repeat(40)));
+            cmd.arg("c18-proc");
+            cmd
+        }
+        _ => {
+            let mut cmd = std::process::Command::new(exe);
+            cmd.arg("c18-proc");
+            cmd
+        }
+    };
+    cmd.env_clear()
         .current_dir(sandbox.cwd(input.process.cwd_kind))
         .stdin(std::process::Stdio::piped())
         .stdout(std::process::Stdio::piped())
@@ -742,6 +843,8 @@ fn pristine_process(job_count: usize) -> ProcessPlan {
             chunk: 4096,
             think_us: 0,
         },
+        plant_files: vec![],
+        argv_kind: 0,
     }
 }
 
@@ -999,6 +1102,8 @@ pub fn gen_plan(rng: &mut Rng) -> RunPlan {
                 chunk: *rng.pick(&[64usize, 512, 4096, 65536]),
                 think_us: *rng.pick(&[0u64, 0, 0, 1_000, 5_000_000]),
             },
+            plant_files: vec![],
+            argv_kind: *rng.pick(&[0u8, 0, 1, 2]),
         });
     }
     RunPlan { pool, processes }
@@ -1042,6 +1147,8 @@ pub struct RunStats {
     pub helper_threads: u64,
     pub processes_with_more_open_fds_after_the_calls: u64,
     pub processes_with_threads_left_running: u64,
+    pub file_probes_recorded: u64,
+    pub plans_rerun_with_planted_files: u64,
     pub alloc_points: u64,
     pub virtual_sleeps: u64,
     pub same_job_on_two_threads: u64,
@@ -1060,6 +1167,8 @@ pub struct RunResult {
     pub log_hash: u64,
     pub stats: RunStats,
     pub logs: Vec<Vec<String>>,
+    /// per process: paths the calls looked for and did not find
+    pub probed: Vec<Vec<String>>,
 }
 
 fn first_difference(a: &str, b: &str) -> String {
@@ -1090,6 +1199,7 @@ fn execute(scratch: &Scratch, golden: &Golden, plan: &RunPlan, record: bool) -> 
     let mut hasher = Hasher::default();
     let mut logs = Vec::new();
     let mut jobs_seen_in_processes: Vec<HashSet<usize>> = Vec::new();
+    let mut probed = Vec::new();
     // One sandbox per run, shared by the run's processes (what one leaves behind, the next finds).
     let sandbox = scratch.sandbox()?;
     // Simulated processes run one after the other: the only state they can share is the file
@@ -1108,6 +1218,8 @@ fn execute(scratch: &Scratch, golden: &Golden, plan: &RunPlan, record: bool) -> 
             return Err(format!("process {pi}: {abort}"));
         }
         hasher.u64(out.log_hash);
+        stats.file_probes_recorded += out.probed_missing.len() as u64;
+        probed.push(out.probed_missing.clone());
         stats.processes += 1;
         stats.threads += process.threads.len() as u64;
         stats.steps += out.steps;
@@ -1273,6 +1385,7 @@ fn execute(scratch: &Scratch, golden: &Golden, plan: &RunPlan, record: bool) -> 
         log_hash: hasher.0,
         stats,
         logs,
+        probed,
     })
 }
 
@@ -1469,6 +1582,8 @@ fn add_stats(a: &mut RunStats, b: &RunStats) {
     a.helper_threads += b.helper_threads;
     a.processes_with_more_open_fds_after_the_calls += b.processes_with_more_open_fds_after_the_calls;
     a.processes_with_threads_left_running += b.processes_with_threads_left_running;
+    a.file_probes_recorded += b.file_probes_recorded;
+    a.plans_rerun_with_planted_files += b.plans_rerun_with_planted_files;
     a.alloc_points += b.alloc_points;
     a.virtual_sleeps += b.virtual_sleeps;
     a.same_job_on_two_threads += b.same_job_on_two_threads;
@@ -1535,9 +1650,34 @@ fn run_batch(scratch: &Scratch, golden: &Golden, seed: u64, n: u64) -> Result<Ta
                                     "event_log_hash": format!("{:016x}", r.log_hash),
                                 }));
                             }
+                            let clean = r.divergences.is_empty();
                             for d in r.divergences {
                                 if local.failures.len() < 16 {
                                     local.failures.push((i, plan.clone(), d));
+                                }
+                            }
+                            // The calls looked for files that do not exist: run the same plan with
+                            // those files present. If the answer changes, the file is an input.
+                            let plantable = |p: &Vec<String>| p.iter().any(|f| f.starts_with("$RUN/"));
+                            if clean && r.probed.iter().any(plantable) {
+                                let mut planted = plan.clone();
+                                for (process, looked_for) in planted.processes.iter_mut().zip(&r.probed) {
+                                    process.plant_files = looked_for.iter().filter(|f| f.starts_with("$RUN/")).cloned().collect();
+                                }
+                                match execute(scratch, golden, &planted, false) {
+                                    Ok(r2) => {
+                                        local.stats.plans_rerun_with_planted_files += 1;
+                                        for mut d in r2.divergences {
+                                            d.detail = format!("with the files the calls looked for present ({:?}): {}", planted.processes.iter().flat_map(|p| p.plant_files.iter()).take(4).collect::<Vec<_>>(), d.detail);
+                                            if local.failures.len() < 16 {
+                                                local.failures.push((i, planted.clone(), d));
+                                            }
+                                        }
+                                    }
+                                    Err(e) => {
+                                        *error.lock().unwrap() = Some(format!("run {i} (planted files): {e}"));
+                                        break;
+                                    }
                                 }
                             }
                         }
@@ -1695,9 +1835,17 @@ pub fn main(tier: Tier) -> i32 {
         match evidence::write_replay("C18", &format!("{seed}-{run}"), &doc) {
             Ok(path) => {
                 violations += 1;
+                let planted: Vec<&String> = min.processes.iter().flat_map(|p| p.plant_files.iter()).collect();
                 lines.push(format!(
-                    "C18 violation: {} (process {}, {}) replay_exact={exact}",
-                    divergence.class, divergence.process, divergence.detail.chars().take(300).collect::<String>()
+                    "C18 violation: {} (process {}, {}){} replay_exact={exact}",
+                    divergence.class,
+                    divergence.process,
+                    divergence.detail.chars().take(300).collect::<String>(),
+                    if planted.is_empty() {
+                        String::new()
+                    } else {
+                        format!(" once the files the calls look for exist: {planted:?}")
+                    }
                 ));
                 lines.push(format!("VIOLATION property=C18 replay={}", path.display()));
             }
@@ -1761,6 +1909,8 @@ pub fn main(tier: Tier) -> i32 {
         "helper_threads_created_by_the_code_under_test_uncontrolled": s.helper_threads,
         "processes_with_more_open_fds_after_the_calls_informational": s.processes_with_more_open_fds_after_the_calls,
         "processes_with_threads_left_running_informational": s.processes_with_threads_left_running,
+        "missing_files_the_calls_looked_for": s.file_probes_recorded,
+        "plans_rerun_with_those_files_planted": s.plans_rerun_with_planted_files,
         "stall_handoffs_baton_holder_blocked_outside_seams": s.stall_handoffs,
         "determinism_pairs_checked": det_n,
         "known_findings_hit": known_hits,
